@@ -55,7 +55,7 @@ CHECKS = {
    technique="deterministic simulation: enumerated and sampled scripted-peer sequences against a wire-level reference predicate"),
  "C10": dict(level="exploration", design="§5 C10",
    text="Interoperability with an independent implementation (refdtls: own PRF, key-block partition, GCM/CCM/ChaCha20/CBC record layouts, RFC 9146 additional data and MAC input, HKDF-Expand-Label with the dtls13 prefix, record nonce and sequence-number encryption, RFC 3610 CCM written from the RFC) on the records and secrets that simulated sessions actually produce, in both directions: the reference opens and recomputes everything the library emits, and the library must accept what the reference seals.",
-   note="The formulas are pure functions; this check covers their input space only as far as simulated sessions reach (suites x layouts x sizes x EMS x resumption), and says so. ECDHE premaster secrets are not visible, so master-secret derivation is recomputed only for plain-PSK suites; the DTLS 1.3 key schedule above the traffic secrets (early/handshake/master secret, exporter) is not recomputed.",
+   note="The formulas are pure functions; this check covers their input space only as far as simulated sessions reach (suites x layouts x sizes x EMS x resumption), and says so. ECDHE premaster secrets of two real endpoints are not visible, so the DTLS 1.2 master-secret derivation is recomputed only for plain-PSK suites. The DTLS 1.3 key schedule (early, handshake and master secret, handshake and application traffic secrets, Finished, CertificateVerify) is exercised end to end by putting the real client in front of a complete server built on the reference implementation; the DTLS 1.3 exporter is finding F5 under C07.",
    technique="deterministic simulation with an independent reference implementation as passive decoder and active record forger"),
  "C05": dict(level="fault_enumeration", design="§5 C05",
    text="Each captured protected record of an established session is presented to the real receiver in dozens of mutated forms (bit, field, truncation, extension, splice and cross-session mutants) before and after the genuine copy, for every suite family, CID layout and both protocol versions; the independent reference model, not the library, decides whether a mutant still authenticates, and the receiver's socket and Read are watched after every single injection.",
